@@ -216,9 +216,13 @@ class SpatialTransform(DeviceProperty, Module, metaclass=ABCMeta):
         optimizer = torch.optim.Adam(params, lr=lr)
         for step in range(steps):
             optimizer.zero_grad()
+            # Buffered displacements must be re-evaluated for current parameters
+            self.clear_buffers()
             loss = F.mse_loss(self.disp(), flow.tensor())
             loss.backward()
             optimizer.step()
+            # Buffers are outdated after this parameter update
+            self.clear_buffers()
             error = loss.detach()
             converged = error.le(epsilon).all()
             if verbose > 0 and (converged or step % verbose == 0):
